@@ -98,7 +98,137 @@ class Gen:
         return "A:%s:%s:%x:%x:%x:%x" % (sh(self.aspace()), sh(self.aspace(noaddr=0.02)),
                                         r.choice(self.pool) & ~7, shift, esz, vsz)
 
+    def coherent(self, nq):
+        """A system laid out like a real one: physical memory, a linear direct map, a PFN
+        page table for low virtual addresses (root given in any space, tables reachable
+        only through the translation being set up when the reader cannot read their space),
+        kernel<->machine physical by offset / lookup / memory array; every word is visible
+        in all three address spaces, so that every route reads the same memory.  A few
+        random perturbations follow."""
+        r = self.r
+        D = r.choice([0xffff880000000000, 0xffff800000000000, 0x100000000, 0x80000000])
+        moff = r.choice([0, 0, 0x100000, 0x40000000])           # machphys = kphys + moff
+        memsz = 0x40000
+        words = {}                                              # kphys word address -> value
+
+        def m_of(p):
+            return (p + moff) & M64
+        nfields = r.choice([2, 2, 3])
+        fsz = [12] + [r.choice([4, 4, 5]) for _ in range(nfields - 1)]
+        vbits = sum(fsz)
+        tas = r.choice([0, 0, 1])                               # page table target space
+        flag = r.choice([0, 1 << 63])
+        mask = flag
+
+        def to_tas(p):
+            return p if tas == 0 else m_of(p)
+        # page tables: allocate table pages from 0x20000 upwards, data pages below
+        next_tbl = [0x20000]
+
+        def alloc_tbl():
+            a = next_tbl[0]
+            next_tbl[0] += 0x1000
+            return a
+        root_p = alloc_tbl()
+        mapped = []                                             # (vaddr, kphys)
+
+        def fill(tbl_p, level, vbase):
+            n = 1 << fsz[level]
+            for idx in r.sample(range(n), min(n, r.randint(1, 3))):
+                va = vbase | (idx << sum(fsz[:level]))
+                if level == 1:
+                    pg = 0x1000 * r.randint(1, 0x1f)
+                    words[tbl_p + 8 * idx] = (to_tas(pg) >> 12) | flag
+                    mapped.append((va, pg))
+                else:
+                    sub = alloc_tbl()
+                    words[tbl_p + 8 * idx] = (to_tas(sub) >> 12) | flag
+                    fill(sub, level - 1, va)
+        fill(root_p, nfields - 1, 0)
+        root_as = r.choice([0, 1, 2, 2, tas])
+        root = {0: root_p, 1: m_of(root_p), 2: (D + root_p) & M64}[root_as]
+        toks = []
+        caps = r.choice([1, 2, 4, 3, 5, 6, 1, 2])
+        rcaps = r.choice([1, 2, 4, 1, 2, 3, 0, 5])
+        toks += ["C:%x" % caps, "R:%x" % rcaps, "O:%s" % sh(0 if r.random() < 0.85 else -7),
+                 "F:%s" % sh(r.choice([5, 5, 2, 0, 6]))]
+        # methods: 0 = pgt, 2 = direct, 5 = rdirect, 6 = machphys->kphys, 7 = kphys->machphys
+        toks.append("T0=P:%s:%s:%x:64:%x:%s" % (sh(tas), sh(root_as), root, mask, ".".join("%x" % f for f in fsz)))
+        toks.append("T2=L:0:%x" % ((-D) & M64))
+        toks.append("T5=L:2:%x" % D)
+        kind = r.choice(["lin", "lin", "lookup", "memarr", "memarr"])
+        if kind == "lin":
+            toks.append("T6=L:0:%x" % ((-moff) & M64))
+            toks.append("T7=L:1:%x" % moff)
+        elif kind == "lookup":
+            toks.append("T6=K:0:%x:%x.0" % (memsz - 1, moff))
+            toks.append("T7=K:1:%x:0.%x" % (memsz - 1, moff))
+        else:
+            # p2m / m2p arrays indexed by frame number, living in physical memory
+            p2m, m2p = 0x30000, 0x38000
+            for pfn in range(memsz >> 12):
+                words[p2m + 8 * pfn] = m_of(pfn << 12) >> 12
+            for pfn in range(memsz >> 12):
+                mfn = m_of(pfn << 12) >> 12
+                if (mfn << 3) < 0x8000:
+                    words[m2p + 8 * mfn] = pfn
+            bas = r.choice([0, 2, 1])
+            b_of = lambda p: {0: p, 1: m_of(p), 2: (D + p) & M64}[bas]
+            toks.append("T6=A:0:%s:%x:c:8:8" % (sh(bas), b_of(m2p)))
+            toks.append("T7=A:1:%s:%x:c:8:8" % (sh(bas), b_of(p2m)))
+        vtop = (1 << vbits) - 1
+        toks.append("M0=0:%x:0" % vtop)                                           # HW
+        toks.append("M1=0:%x:0,%x:%x:2" % (vtop, D, memsz - 1))                   # KV_PHYS
+        toks.append("M2=0:%x:5" % (memsz - 1))                                    # KPHYS_DIRECT
+        toks.append("M3=%x:%x:6" % (moff, memsz - 1))                             # MACHPHYS_KPHYS
+        toks.append("M4=0:%x:7" % (memsz - 1))                                    # KPHYS_MACHPHYS
+        for p, v in sorted(words.items()):
+            toks.append("W:0:%x:%x" % (p, v))
+            toks.append("W:1:%x:%x" % (m_of(p), v))
+            toks.append("W:2:%x:%x" % ((D + p) & M64, v))
+        # perturbations
+        for _ in range(r.choice([0, 0, 0, 1, 1, 2])):
+            k = r.random()
+            cand = [i for i, t in enumerate(toks) if t[0] in "MT"]
+            i = r.choice(cand)
+            if k < 0.3:
+                del toks[i]
+            elif k < 0.6 and toks[i][0] == "T":
+                toks[i] = toks[i][:toks[i].index("=") + 1] + self.meth()
+            elif k < 0.8 and toks[i][0] == "M":
+                toks[i] = toks[i][:3]
+            else:
+                toks.append("T%x=%s" % (r.randint(8, 15), self.meth()))
+        # queries: mapped virtual addresses, direct-map addresses, physical addresses
+        for _ in range(nq):
+          for attempt in range(4):
+            k = r.random()
+            off = r.choice([0, 8, 0xabc, 0xfff, 0x10])
+            if k < 0.35 and mapped:
+                va, pg = r.choice(mapped)
+                a, sp = va + off, 2
+            elif k < 0.5:
+                a, sp = (D + 0x1000 * r.randint(0, 0x3f) + off) & M64, 2
+            elif k < 0.7:
+                a, sp = 0x1000 * r.randint(0, 0x3f) + off, 0
+            elif k < 0.9:
+                a, sp = m_of(0x1000 * r.randint(0, 0x3f) + off), 1
+            else:
+                a, sp = self.addr(), self.aspace()
+            if not (0 <= sp < 3 and (caps >> sp) & 1) or r.random() < 0.15:
+                break               # mostly addresses that are not usable as they are
+          if r.random() < 0.25:
+              toks.append("V:%s:%x:%s" % (sh(sp), a, sh(r.choice([x for x in (0, 1, 2) if x != sp] + [sp]))))
+          else:
+              toks.append("Q:%s:%x" % (sh(sp), a))
+        return toks
+
     def case(self, nq):
+        if self.r.random() < 0.45:
+            return self.coherent(nq)
+        return self.random_case(nq)
+
+    def random_case(self, nq):
         r = self.r
         toks = []
         capbits = [b for b in (0, 1, 2) if r.random() < 0.45]
@@ -174,10 +304,15 @@ class Gen:
                                         self.value()))
         for _ in range(nq):
             a = self.addr()
+            sp = self.aspace(other=0.03)
+            for attempt in range(3):
+                if not (0 <= sp < 3 and (caps >> sp) & 1) or r.random() < 0.2:
+                    break
+                sp = self.aspace(other=0.03)
             if r.random() < 0.25:
-                toks.append("V:%s:%x:%s" % (sh(self.aspace(other=0.03)), a, sh(r.choice([0, 1, 2, 2, 0, 3]))))
+                toks.append("V:%s:%x:%s" % (sh(sp), a, sh(r.choice([0, 1, 2, 2, 0, 3]))))
             else:
-                toks.append("Q:%s:%x" % (sh(self.aspace(other=0.03)), a))
+                toks.append("Q:%s:%x" % (sh(sp), a))
         return toks
 
 
@@ -272,7 +407,7 @@ def check(run):
             break
 
 
-def evaluate(run, exe, cases):
+def evaluate(run, exe, cases, timeout=None):
     """model -> filter -> implementation -> spec judge.  Returns dict of parallel lists."""
     cf = run.casefile("sysop-cases.txt", [" ".join(c) for c in cases])
     mraw = core.run_model("sysop", cf)
@@ -286,7 +421,9 @@ def evaluate(run, exe, cases):
         fcases.append(t2)
         mouts.append(o2)
     lines = [" ".join(c) for c in fcases]
-    impl, crashes = core.run_impl_lines(exe, run.work, lines, timeout=600)
+    if timeout is None:
+        timeout = 30 if run.tier == "quick" else 600
+    impl, crashes = core.run_impl_lines(exe, run.work, lines, timeout=timeout)
     if crashes:
         run.count("impl-abnormal-exit", len(crashes))
     sl = ["%s | %s" % (l, io) for l, io in zip(lines, impl)]
@@ -317,26 +454,36 @@ def report(run, exe, cases, res):
             run.count("status-" + f.get("st", "?"))
             run.count("depth-" + f.get("d", "?"))
             run.count("calls-" + f.get("n", "?"))
+        for a in mo:
+            f = fields(a)
+            run.count("model-%s-nesting-%s" % ("success" if f.get("st") == "0" and f.get("n") == "1"
+                                               else "called" if f.get("n") == "1" else "failure", f.get("d", "?")))
         for t in toks:
             if t[0] == "T":
                 run.count("meth-" + t[t.index("=") + 1])
         if i < 3:
             run.sample({"case": canon[:400], "impl": io[:300]})
+        if io == "NOT-RUN":
+            continue
         if i in res["crashes"] or not line_agrees(mo, io) or spec_bad(res["spec"][i]):
             bad.append(i)
-    for i in bad[:4]:
+    # one crash, then spec contradictions, then plain tie breaks
+    crashed = [i for i in bad if i in res["crashes"]][:1]
+    specb = [i for i in bad if i not in res["crashes"] and spec_bad(res["spec"][i])][:2]
+    tieb = [i for i in bad if i not in res["crashes"] and not spec_bad(res["spec"][i])][:2]
+    for i in crashed + specb + tieb:
         toks = cases[i]
 
         def fails(cand):
             if not any(is_query(t) for t in cand):
                 return False
-            r = evaluate(run, exe, [cand])
+            r = evaluate(run, exe, [cand], timeout=10)
             return bool(r["crashes"]) or not line_agrees(r["mlist"][0], r["impl"][0]) or spec_bad(r["spec"][0])
         if not fails(toks):
             run.count("unreproducible-disagreement")
             continue
-        small = core.shrink_list(toks, fails, max_tests=150)
-        r = evaluate(run, exe, [small])
+        small = core.shrink_list(toks, fails, max_tests=60)
+        r = evaluate(run, exe, [small], timeout=10)
         sv = spec_bad(r["spec"][0])
         crash = r["crashes"].get(0)
         replay = {"engine": "sysop", "case": " ".join(r["cases"][0]), "model": r["model"][0],
@@ -344,7 +491,8 @@ def report(run, exe, cases, res):
                   "impl_exit": crash[0] if crash else 0, "impl_stderr_tail": crash[1][-1500:] if crash else "",
                   "how": "bin/check C09 --replay <this file> rebuilds the system in harness/sysop_drv.c"}
         if crash:
-            what = "stack overflow" if "stack-overflow" in crash[1] or crash[0] in (-11, 139) else "crash"
+            what = ("stack overflow" if "stack-overflow" in crash[1] or crash[0] in (-11, 139)
+                    else "no answer within the time limit" if crash[0] == "timeout" else "crash")
             run.violation("impl", "addrxlat_op/addrxlat_fulladdr_conv aborts (%s, exit %s) on system: %s"
                           % (what, crash[0], " ".join(small)[:600]), replay, found_input=True,
                           signature="sysop crash %s %s" % (what, crash[1][-200:]))
